@@ -1,6 +1,8 @@
 import GomlVerif.Lemmas.C14Alpha
 import GomlVerif.Lemmas.C14Validate
 import GomlVerif.Model.Link
+import GomlVerif.Lemmas.C14Exports
+import GomlVerif.Gen.Exports
 /-!
 C14 — separate compilation is equivalent to whole-program compilation.
 
@@ -71,7 +73,51 @@ theorem check_build_same_interface (H : Link.View → Link.Hash) (s : Link.St) (
     subst h1; subst h2
     simp [Link.setIface, Link.setCore]
 
+/-! ### the link environment (`PackageExports::apply_to`, artifact.rs; `link_cores`, separate.rs; `compile`, pipeline.rs) -/
+
+/-- **`apply_to` forgets nothing** (tables regenerated from env.rs / artifact.rs): every map of `TypeEnv`, `TraitEnv`
+    and `ValueEnv` is extended by a loop of `PackageExports::apply_to`, those structs have no field that is not a
+    map, `PackageExports` has exactly the parts of `GlobalTypeEnv`, and `to_genv` clones each part into the part
+    of the same name -/
+theorem apply_to_copies_every_map :
+    (Gen.Exports.envMaps.all fun f => Gen.Exports.appliedMaps.contains f) = true ∧
+    (Gen.Exports.appliedMaps.all fun f => Gen.Exports.envMaps.contains f) = true ∧
+    Gen.Exports.envOther = [] ∧ Gen.Exports.exportsParts = Gen.Exports.genvParts ∧
+    Gen.Exports.toGenv = Gen.Exports.genvParts.map (fun p => (p, p)) := by decide
+
+/-- **an `IndexMap` rebuilt from its own entries is itself**: inserting the entries of a map with distinct keys
+    into an empty map, in their order, yields the map — what reading the exports back from the interface JSON does
+    to each of their maps (the codec of the entries themselves is validated, `exports_roundtrip` oracle, not modelled) -/
+theorem indexmap_rebuilt_from_entries (m : Exports.IMap) (hd : (m.map (·.1)).Nodup) : Exports.IMap.extend [] m = m :=
+  Exports.extend_nil_id m hd
+
+/-- **the order of the packages is irrelevant for every lookup in the link environment**: if every export map has
+    distinct keys and no two packages export the same key of the same map with different values, then the
+    environments built by `apply_to` over any two orders of the packages answer every lookup in every map alike.
+    (The whole-program way and `link_cores` use two different topological sorts; the maps' iteration order does
+    differ, which is why `implsAgree` above compares tables by lookup.)  The check evaluates both hypotheses and
+    `applyAll` on the real exports of every accepted project and compares every lookup with the real environment
+    of both ways. -/
+theorem link_env_order_irrelevant (fields : List String) (es es' : List Exports.Env) (g : Exports.Env)
+    (hp : es.Perm es') (hwf : Exports.WF es) (hc : Exports.Consistent es)
+    (f : String) (hf : fields.contains f = true) (k : String) :
+    Exports.IMap.lookup ((Exports.applyAll fields es g) f) k = Exports.IMap.lookup ((Exports.applyAll fields es' g) f) k :=
+  Exports.applyAll_perm fields es es' g hp hwf hc f hf k
+
 /-! ### non-vacuity -/
+
+/-- two packages exporting into the same two maps, applied in both orders: the iteration order of the maps
+    differs, every lookup agrees -/
+def exE1 : Exports.Env := Exports.ofList [("value_env.funcs", [("A::f", "h1"), ("A::g", "h2")]), ("type_env.enums", [("A::T", "h3")])]
+def exE2 : Exports.Env := Exports.ofList [("value_env.funcs", [("B::f", "h4")]), ("type_env.enums", [("B::U", "h5")])]
+def exG0 : Exports.Env := Exports.ofList [("value_env.funcs", [("string_println", "h0")])]
+
+example : (Exports.applyAll Gen.Exports.appliedMaps [exE1, exE2] exG0) "value_env.funcs"
+    = [("string_println", "h0"), ("A::f", "h1"), ("A::g", "h2"), ("B::f", "h4")] := by decide +kernel
+example : (Exports.applyAll Gen.Exports.appliedMaps [exE2, exE1] exG0) "value_env.funcs"
+    = [("string_println", "h0"), ("B::f", "h4"), ("A::f", "h1"), ("A::g", "h2")] := by decide +kernel
+example : Exports.IMap.lookup ((Exports.applyAll Gen.Exports.appliedMaps [exE2, exE1] exG0) "value_env.funcs") "A::g" = some "h2" := by
+  decide +kernel
 
 /-- two packages' functions in the two orders, the dependency's temporaries numbered from 0 resp. 2:
     the validator accepts, so the two programs run alike — and they print something -/
